@@ -180,6 +180,10 @@ def same_outcome(model, impl, compare_site=True):
     """compare a model answer with an implementation answer; None = skip (unsupported)"""
     if isinstance(model, list) and model and model[0] == "unsupported":
         return None
+    if isinstance(model, list) and len(model) == 2 and model[0] == "parse-failed":
+        if model[1] and model[1][0] == "unsupported":
+            return None
+        return False  # the harness only sends texts the implementation parsed
     if model[0] == "ok" or impl[0] == "ok":
         return model == impl
     # both errors
